@@ -437,7 +437,7 @@ func (w *World) VerifTableCounts() (active, retired, emptyDeadTarget int) {
 			continue
 		}
 		active++
-		if a.len == 0 && !a.RelationTarget.IsZero() && !w.entityPool.Alive(a.RelationTarget) {
+		if a.len == 0 && !a.RelationTarget.IsZero() && (int(a.RelationTarget.id) >= len(w.entityPool.entities) || !w.entityPool.Alive(a.RelationTarget)) {
 			emptyDeadTarget++
 		}
 	}
